@@ -8,6 +8,9 @@ Obligations
              malformed token soups
   C-pp       real simplecpp::preprocess == model `runFile` on generated sources (macros, conditionals) and configurations
   C-dui      real Preprocessor::getcode (createDUI) == model `duiDefines` + `runFile`
+  C-skel     lines kept by `runC` on the skeleton of each conditional source == lines kept by the model's directive loop == lines kept
+             by the real simplecpp
+  P-include  real Preprocessor (loadFiles + getcode, -I / --include) on generated directory trees == gcc -E (no model)
   spec       Lean specification `value` / model `runFile` == gcc -E -P -undef -nostdinc (second oracle, a sample in quick)
 P_impl       on every generated well-defined input: branch taken / token stream of the real preprocessor == gcc's.
 """
@@ -26,8 +29,11 @@ EXPLANATION = ("Lean theorems about an executable copy of simplecpp's `#if` eval
                "simplecpp::preprocess and createDUI's define list. The full statement 'evaluator = C17 6.10.1' is refuted by proved "
                "counterexamples (each replayed on the real code and recorded as known finding) and proved on the decidable agreement "
                "class. Macro::expand of simplecpp is not copied line by line: the replacement model is the standard's algorithm, "
-               "tied to simplecpp and gcc -E by correspondence on the generated fragment. Outside the model: #include resolution, "
-               "__has_include, pragmas, sizeof in #if, character/floating literals, alternative operator spellings, comments, "
+               "tied to simplecpp and gcc -E by correspondence on the generated fragment; theorems about it: object-like (flat tables) and "
+               "function-like (flat bodies, macro-free arguments) replacement = substitution. The directive loop of the model is proved to keep "
+               "the lines the abstract ifstates machine keeps (runLines_included_eq_runC), which is proved equal to the group semantics. "
+               "#include / -I / --include resolution has no model: the real Preprocessor on generated directory trees is compared with gcc -E "
+               "(P_impl only). Outside the model: __has_include, pragmas, sizeof in #if, character/floating literals, alternative operator spellings, comments, "
                "placemarker corner cases of ##, function-like macro names that take their arguments from beyond the end of a "
                "replacement list.")
 THEOREMS = ["Cppcheck.PPCond.ifeval_eq_spec_paren",
@@ -38,6 +44,8 @@ THEOREMS = ["Cppcheck.PPCond.ifeval_eq_spec_paren",
             "Cppcheck.PPMacro.expand", "Cppcheck.PPMacro.expand_terminates_rescan", "Cppcheck.PPMacro.expand_terminates_args",
             "Cppcheck.PPMacro.expand_terminates_wf", "Cppcheck.PPMacro.expand_object_macro_eq_subst",
             "Cppcheck.PPMacro.included_lines_eq_spec", "Cppcheck.PPMacro.included_lines_eq_spec_nested",
+            "Cppcheck.PPMacro.runLines_included_eq_runC", "Cppcheck.PPMacro.runLines_included_lines_eq_spec",
+            "Cppcheck.PPMacro.expand_function_macro_eq_subst",
             "Cppcheck.PPMacro.D_applied", "Cppcheck.PPMacro.U_applied", "Cppcheck.PPMacro.U_applied_counterexample"]
 MODULES = ["Cppcheck.Props.C11"]
 
@@ -821,9 +829,19 @@ def cd_tie(ctx, res, exe, drv, n):
 
 # ---- the check ---------------------------------------------------------------------------------------------------------------
 
+ASSUMPTIONS = [
+    "evaluator theorem ifeval_eq_spec_paren: fully parenthesised spelling, decimal unsuffixed literals < 2^63, unary operators on leaves / parenthesised operands, strict evaluation defined; the class of minimal parentheses (`Agree`) is sampled, not proved",
+    "macro replacement: the model `expand` is the C17 6.10.3 algorithm plus four observed deviations (Quirks), not a copy of Macro::expand; theorems cover flat object-like tables and function-like macros with flat bodies and macro-free arguments; #, ##, variadic, nested and recursive invocations are tied by sampling against simplecpp and gcc",
+    "#include / -I / --include: no model, implementation compared with gcc -E on generated trees",
+    "gcc 12 -E -P -undef -nostdinc is taken as the conforming preprocessor; `-U X` of cppcheck also suppresses `#define X` in the file (documented difference, such cases are not compared with gcc)",
+    "lexer: only names / pp-numbers / single characters / the two-character operators of combineOperators; tokens separated by one space in the generated sources",
+]
+
+
 def run(ctx, res):
     rng = ctx.rng
     thorough = ctx.tier == "thorough"
+    res.assumptions = list(ASSUMPTIONS)
     if not os.environ.get("C11_NOPROVE"):        # development switch only: the lake lock is shared by all authors
         core.prove(ctx, res, MODULES, THEOREMS)
     drv = os.environ.get("C11_DRV") or ctx.driver("drv_c11")
